@@ -32,7 +32,7 @@ var (
 	l2gerABI  = mustABI(globalexitrootmanagerl2sovereignchain.Globalexitrootmanagerl2sovereignchainMetaData.GetAbi())
 )
 
-const c16NGERs = 20
+const c16NGERs = 72
 
 func c16GER(idx uint32) common.Hash { return keccakBytes([]byte("c16ger"), []byte{byte(idx)}) }
 
